@@ -55,8 +55,12 @@ func (p *pool) Acquire(ctx context.Context) (v wire) {
 		go func() {
 			<-poolCtx.Done()
 			if context.Cause(poolCtx) != errAcquireComplete { // no need to broadcast if the poolCtx is cancelled explicitly.
+				// Broadcast under the lock: the waiter checks ctx.Err() and calls Wait under the lock, so the
+				// broadcast can no longer fall between its check and its Wait and be lost.
+				p.cond.L.Lock()
 				verifEv(evCtxBcast, verifTid(ctx), 0)
 				p.cond.Broadcast()
+				p.cond.L.Unlock()
 			}
 		}()
 	}
